@@ -24,10 +24,16 @@ RULE = ('A victim instance and an active peer (own service, browser, periodic tr
         '(ServiceListener or RecordUpdateListener) after the first close returned, the loop exception handler stays empty, every in-flight coroutine finishes with a result or '
         'NotRunningException/NonUniqueNameException, services in the registry at close time got three complete goodbyes before the '
         'sockets closed, the second close transmits nothing. Non-trivial = close requested while a victim timer/task with a send in '
-        'it was pending (registration in progress, queued answers, TC hold, browser start-up or a pending lookup).')
+        'it was pending (registration in progress, queued answers, TC hold, browser start-up or a pending lookup). About one case '
+        'in sixty instead creates Zeroconf() outside any loop (own loop thread), performs register/unregister/browse (thread-based '
+        'ServiceBrowser, optionally slow listener)/lookup/query operations from the harness thread and helper threads, and calls close() '
+        'or leaves a with-block from a non-loop thread while calls on other threads may be in flight; same oracle plus: loop thread and '
+        'browser threads have ended, in-flight calls return or raise a documented exception.')
 ASSUMPTIONS = [
-    'close from a non-loop thread (Zeroconf.close()) shares _close/_async_close with the path exercised here; the thread hand-off '
-    'itself is not executed in virtual time (the thread-based ServiceBrowser is: its callbacks run in real time on its own thread)',
+    'close from a non-loop thread (Zeroconf.close(), also through the context manager) is executed with real threads on a real selector '
+    'loop whose clock runs 10x faster than wall time (about one case in sixty): the schedule of those cases belongs to the operating '
+    'system, so their oracle is timing-free (order of events relative to the return of close(), goodbye counts, thread liveness, how '
+    'calls in flight on other threads ended); EventLoopBlocked is accepted for a call on another thread that the close interrupted',
     'lookups are bounded by their own timeout; 3 h of virtual time is taken as "never" for hang detection',
 ]
 BUDGET = {'quick': {'examples': 1500}, 'thorough': {'examples': 12000, 'shards': 16}}
@@ -86,7 +92,15 @@ def scenario(draw) -> Dict[str, Any]:
 
 
 def strategy(tier: str):
-    return scenario()
+    from props.c17_threads import threaded_scenario
+
+    # about one case in sixty runs real threads in (compressed) real time: Zeroconf() with its own loop thread, closed with
+    # close() from another thread (see props/c17_threads.py); everything else runs in virtual time
+    return st.sampled_from([False] * 59 + [True]).flatmap(lambda th: threaded_scenario() if th else scenario())
+
+
+def FLAKY_IS_VIOLATION(case: Any) -> bool:
+    return isinstance(case, dict) and (case.get('kind') == 'threaded' or bool(case.get('sync')))
 
 
 def known_signature(case: Any, v: Violation):
@@ -304,6 +318,10 @@ ALLOWED_EXC = ('NotRunningException', 'NonUniqueNameException')
 
 
 def check(case: Dict[str, Any]) -> Dict[str, Any]:
+    if case.get('kind') == 'threaded':
+        from props.c17_threads import check_threaded
+
+        return check_threaded(case)
     ex = Exec(case)
     tick = case['close']['tick_us'] * 1e-6 if 'tick_us' in case['close'] else None
     with sim.World(jitter_seed=case['jitter'], tick=tick) as w:
